@@ -285,6 +285,9 @@ func Asm(w *World) *AsmAnchors {
 	chk(a.LoadPredefined, "parser's predefined-symbol loader")
 	chk(a.GraphCycle, "cycle detector")
 	chk(a.NewParser, "parser constructor")
+	w.MarkBoundary("assembler anchor", a.OpReader, a.OpReader88, a.ModeReader, a.ModeReader88, a.ModReader, a.Op94, a.Default94, a.Validate88,
+		a.ParseAddress, a.EvalExpr, a.AssembleLine, a.ExpandExpr, a.Compile, a.NewCompiler, a.EvalAssertion, a.EvalAssertions, a.LoadConstants,
+		a.LoadPredefined, a.GraphCycle, a.NodeCycle, a.NewParser, a.BufNext, a.NewBufReader, a.LoadSymbols)
 	return a
 }
 
